@@ -4,8 +4,11 @@ Called from extract.py (and imported by lib/c14.py, so that the check and the ge
 file read the source with the same patterns).  Extracted:
   * `PubSubManager::publish` (src/pubsub.rs): does it still push a receiver only
     `if seen_connections.insert(conn_id)` (one delivery per connection) ?
-  * `pattern_matches` (src/pubsub.rs): the arms of `match pattern[p_idx]` — the grammar the
-    model's `gstep` transliterates (`?`, `*`, `\\` with the guard `p_idx + 1 < pattern.len()`, `_`);
+  * `pattern_matches` (src/pubsub.rs) is exactly one call of the server's glob matcher
+    `crate::storage::engine::pattern_matches(pattern, channel)`;
+  * that matcher (src/storage/engine.rs): the arms of `match pattern_chars[p_idx]` — the grammar the model's
+    `gstep` transliterates (`?`, `*`, `[`, `\\` with the guard `p_idx + 1 < len`, `_`) — and the conditions of
+    the `if`s of its `[` arm, in order (the class walk the model's `classGo` transliterates);
   * `handle_unsubscribe` / `handle_punsubscribe` (src/network/server.rs): do they confirm with the
     remaining count when the manager returned no result (client holds nothing) ?
   * `Server::cleanup_connections` (src/network/server.rs): does it still skip closing
@@ -16,20 +19,26 @@ import re
 
 def facts(src, strip_comments, fn_body):
     """dict(dedup: bool|None, glob_arms: list|None, keeps_dead: bool|None); None = not recognised"""
-    out = {"dedup": None, "glob_arms": None, "keeps_dead": None, "acks_when_idle": None}
+    out = {"dedup": None, "glob_arms": None, "keeps_dead": None, "acks_when_idle": None, "matcher_is_engine": None, "class_conds": None}
     ps = strip_comments(src("pubsub.rs"))
     body = fn_body(ps, "publish")
     if body is not None and "receivers.push" in body:
         out["dedup"] = bool(re.search(r"seen_connections\s*\.\s*insert\s*\(", body))
     pm = fn_body(ps, "pattern_matches")
     if pm is not None:
-        m = re.search(r"match\s+pattern\s*\[\s*p_idx\s*\]\s*\{", pm)
+        out["matcher_is_engine"] = re.sub(r"\s+", "", pm) == "crate::storage::engine::pattern_matches(pattern,channel)"
+    en = strip_comments(src("storage/engine.rs"))
+    em = fn_body(en, "pattern_matches")
+    if em is not None:
+        m = re.search(r"match\s+pattern_chars\s*\[\s*p_idx\s*\]\s*\{", em)
         if m:
             # top-level arms of the match: text before each `=>` at brace depth 0
-            i, depth, arms, start = m.end(), 0, [], m.end()
-            while i < len(pm):
-                ch = pm[i]
+            i, depth, arms, start, blocks = m.end(), 0, [], m.end(), {}
+            while i < len(em):
+                ch = em[i]
                 if ch == "{":
+                    if depth == 0:
+                        bstart = i
                     depth += 1
                 elif ch == "}":
                     if depth == 0:
@@ -37,11 +46,16 @@ def facts(src, strip_comments, fn_body):
                     depth -= 1
                     if depth == 0:
                         start = i + 1
-                elif depth == 0 and pm.startswith("=>", i):
-                    arms.append(re.sub(r"\s+", " ", pm[start:i]).strip(" ,"))
+                        if arms:
+                            blocks[arms[-1]] = em[bstart + 1:i]
+                elif depth == 0 and em.startswith("=>", i):
+                    arms.append(re.sub(r"\s+", " ", em[start:i]).strip(" ,"))
                     i += 1
                 i += 1
             out["glob_arms"] = arms
+            blk = blocks.get("b'['")
+            if blk is not None:
+                out["class_conds"] = [re.sub(r"\s+", " ", c).strip() for c in re.findall(r"\bif\s+([^{}]*?)\s*\{", blk)]
     sv = strip_comments(src("network/server.rs"))
     fb = []
     for fn in ("handle_unsubscribe", "handle_punsubscribe"):
@@ -73,11 +87,21 @@ def generate(src, strip_comments, fn_body, header):
         lines.append("/-- `PubSubManager::publish` pushes a receiver only `if seen_connections.insert(conn_id)`:")
         lines.append("    one delivery per connection (true) instead of one per matching subscription (false). -/")
         lines.append("def pubsubDedup : Bool := %s" % ("true" if f["dedup"] else "false"))
-    if f["glob_arms"] is None:
-        lines.append('def pubsubGlobArms : List String := extraction_failed "match pattern[p_idx] not found in pattern_matches (src/pubsub.rs)"')
+    if f["matcher_is_engine"] is None:
+        lines.append('def pubsubMatcherIsEngine : Bool := extraction_failed "pattern_matches not found in src/pubsub.rs"')
     else:
-        lines.append("/-- the arms of `match pattern[p_idx]` in `pattern_matches` (src/pubsub.rs), whitespace-normalised -/")
+        lines.append("/-- `pubsub::pattern_matches` is exactly `crate::storage::engine::pattern_matches(pattern, channel)` -/")
+        lines.append("def pubsubMatcherIsEngine : Bool := %s" % ("true" if f["matcher_is_engine"] else "false"))
+    if f["glob_arms"] is None:
+        lines.append('def pubsubGlobArms : List String := extraction_failed "match pattern_chars[p_idx] not found in pattern_matches (src/storage/engine.rs)"')
+    else:
+        lines.append("/-- the arms of `match pattern_chars[p_idx]` in `pattern_matches` (src/storage/engine.rs), whitespace-normalised -/")
         lines.append("def pubsubGlobArms : List String := [%s]" % ", ".join(lean_str(a) for a in f["glob_arms"]))
+    if f["class_conds"] is None:
+        lines.append('def pubsubClassConds : List String := extraction_failed "the `[` arm of pattern_matches (src/storage/engine.rs) was not found"')
+    else:
+        lines.append("/-- the conditions of the `if`s in the `[` arm of that matcher, in source order -/")
+        lines.append("def pubsubClassConds : List String := [%s]" % ", ".join(lean_str(a) for a in f["class_conds"]))
     if f["keeps_dead"] is None:
         lines.append('def pubsubKeepsDeadSubscribers : Bool := extraction_failed "Server::cleanup_connections not recognised in src/network/server.rs"')
     else:
